@@ -329,9 +329,12 @@ def check_net(H: CRNHyperGraph, M: Model, site: str, cond: str, other: bool) -> 
         for j, eid in enumerate(eo):
             if int(mat[i, j]) != want.get((s, eid), 0):
                 _fail(site, wrap("incidence_mismatch"), cond, {"entry": [s, eid], "want": want.get((s, eid), 0), "got": int(mat[i, j])})
-    if mat.size:
-        mat.fill(77)
-    mapping.clear()
+    try:
+        if mat.size:
+            mat.fill(77)
+        mapping.clear()
+    except Exception:
+        pass                                   # read-only results are fine
 
 
 # ---------------------------------------------------------------------------
